@@ -319,7 +319,7 @@ def handle (op : String) (fs : List (String × String)) : String :=
       | none => "nil"
       | some t => s!"req={ligaLangSys.required};opt={natsToString ligaLangSys.optional};" ++ showLigTable t
     | none => "bad-case"
-  else if op == "layout.text" then
+  else if op == "layout.text" || op == "layout.textd" then
     match parseText fs with
     | some c => runText c
     | none => "bad-case"
